@@ -45,7 +45,10 @@ HugeProducers == {   \* 2^60: beyond 2^53 but exactly a double
   <<"literal", Lit(D("1152921504606846976"))>>, <<"arith", Bin("*", Lit(D("1073741824")), Lit(D("1073741824")))>>, <<"shift", Bin("<<", Num(1), Num(60))>>,
   <<"or0", Bin("|", Lit(D("1152921504606846976")), Num(0))>>, <<"pow", Bin("**", Num(2), Num(60))>>, <<"abs", Call(Id("abs"), <<Un("-", Lit(D("1152921504606846976")))>>)>>,
   <<"function", Id1(Bin("<<", Num(1), Num(60)))>>, <<"mod", Bin("%", Lit(D("1152921504606846976")), Lit(D("2305843009213693952")))>> }
-NumVals == { <<"0", IntProducers(0)>>, <<"1", IntProducers(1)>>, <<"3", IntProducers(3)>>, <<"7", IntProducers(7)>>, <<"2p20", BigProducers>>, <<"2p60", HugeProducers>> }
+FracProducers == {   \* 2.5: not an integer, whoever made it
+  <<"literal", Lit(D("2.5"))>>, <<"arith", Bin("/", Num(5), Num(2))>>, <<"minus", Bin("-", Num(3), Lit(D("0.5")))>>, <<"function", Id1(Lit(D("2.5")))>>,
+  <<"abs", Call(Id("abs"), <<Un("-", Lit(D("2.5")))>>)>>, <<"min", Call(Id("min"), <<Lit(D("2.5")), Num(9)>>)>>, <<"neg-neg", Un("-", Un("-", Lit(D("2.5"))))>> }
+NumVals == { <<"2.5", FracProducers>>, <<"0", IntProducers(0)>>, <<"1", IntProducers(1)>>, <<"3", IntProducers(3)>>, <<"7", IntProducers(7)>>, <<"2p20", BigProducers>>, <<"2p60", HugeProducers>> }
 
 (* ---- contexts with one hole h ---- *)
 BinOpsAll == {"+","-","*","/","%","**","<","<=",">",">=","==","!=","&","|","^","<<",">>"}
